@@ -132,6 +132,12 @@ def run_case(case, tier):
                     f2, _e, _d = fragments.place_near(recs, case["frag"], rng, anchor=anchor, dist_A=rng.choice((2.9, 3.5, 4.5, 6.0)),
                                                       resnum=901 + extra_i, min_clear_A=2.6)
                     if f2:
+                        if rng.random() < 0.5:
+                            # ... under one residue number, told apart by the insertion code only
+                            f2 = [r_.copy() for r_ in f2]
+                            for r_ in f2:
+                                r_.resnum, r_.icode = 900, "AB"[extra_i]
+                            classes.append("ions-sharing-a-residue-number")
                         recs = recs + f2
                         classes.append("several-ions-of-one-kind")
             if case["frag"].startswith("ion:") and rng.random() < 0.6:
